@@ -16,7 +16,7 @@ for l,p,s,nd,det in rows:
     n+=1
     if det:
         c+=1 if det['caught'] else 0
-        out.append(f"| {l} | {p} | {s} | {nd} | {'yes' if det['caught'] else 'NO (exit %s)'%det['exit_code']} | {det['violation_lines']} | {det['seconds_including_build']} |")
+        out.append(f"| {l} | {p} | {s} | {nd} | {'yes' if det['caught'] else 'NO (exit %s)'%det['exit_code']} | {det['violation_lines']} | {det['seconds_including_build'] if det['seconds_including_build'] is not None else '-'} |")
     else:
         out.append(f"| {l} | {p} | {s} | {nd} | (not yet run) | | |")
 out+=["",f"{c} of {n} seeded changes are caught by the quick tier of the check of the property they were written against.",""]
